@@ -24,6 +24,9 @@ type ParserZH struct {
 	// 1) start from another line OR
 	// 2) seperate former statement with '；'
 	stmtCompleteFlag bool
+	// indent of the block whose item is being parsed (set by parseItemListBlock);
+	// the body of a block statement is indented relative to it
+	blockIndent int
 }
 
 // NewParserZH -
@@ -242,16 +245,14 @@ func (p *ParserZH) consume(validTypes ...uint8) {
 	}
 }
 
-// expectBlockIndent - detect if the Indent(peek) == Indent(current) + 1
+// expectBlockIndent - detect if the Indent(peek) == baseIndent + 1, where baseIndent is the
+// indent of the line on which the enclosing statement starts (the header of a statement may
+// span several lines: line breaks after separators, multi-line texts and comments)
 // returns (validBlockIndent, newIndent)
-func (p *ParserZH) expectBlockIndent() (bool, int) {
-	var peekLine = p.StartLineIdxP2
-	var currLine = p.StartLineIdxP1
+func (p *ParserZH) expectBlockIndent(baseIndent int) (bool, int) {
+	var peekIndent = p.getPeekIndent()
 
-	var peekIndent = p.GetLineInfo(peekLine).Indents
-	var currIndent = p.GetLineInfo(currLine).Indents
-
-	if peekIndent == currIndent+1 {
+	if peekIndent == baseIndent+1 {
 		return true, peekIndent
 	}
 	return false, 0
